@@ -54,6 +54,24 @@ pub fn configs(thorough: bool) -> Vec<EpCfg> {
         }
     }
     v.extend(super::eps::large_id_configs("c06", "c06", thorough));
+    // v5: property blocks of 125..130 bytes on publishes that register an alias: the stored copy (alias removed)
+    // crosses the one-byte / two-byte Property Length boundary
+    for pad in [119usize, 120, 121, 122] {
+        if !thorough && !(pad == 119 || pad == 121) {
+            continue;
+        }
+        let mut c = EpCfg::new(&cfg_name("c06", RoleK::Client, Some(Ver::V5), &format!("padded-properties={pad}")), RoleK::Client, Some(Ver::V5));
+        c.auto_pub = true;
+        c.window = 1;
+        c.pub_pad = pad;
+        c.alph = session_alph(true, 1);
+        c.alph.pub_q = vec![1, 2];
+        c.alph.als = vec![Al::No, Al::Reg(1), Al::Use(1)];
+        c.connects = vec![ConnProf { ..ConnProf::basic(false) }];
+        c.connacks = vec![AckProf { tam: Some(1), ..AckProf::basic(true) }];
+        c.groups = vec!["c06"];
+        v.push(c);
+    }
     // v5: aliases and a tight Maximum Packet Size on resume
     for role in [RoleK::Client, RoleK::Server] {
         let mut c = EpCfg::new(&cfg_name("c06", role, Some(Ver::V5), "alias+mps"), role, Some(Ver::V5));
